@@ -1212,9 +1212,21 @@ impl OpGen<'_> {
             }
             "set_fn_name" => {
                 let c = m.alive_funcs();
+                let id = *self.rng.pick_opt(&c)?;
+                // one time in three through the lower-level naming call that applies to this function
+                let via = if self.rng.chance(1, 3) {
+                    match m.funcs[id as usize].kind {
+                        MFK::Local(_) => 1,
+                        MFK::Import { imp, .. } if id < m.base.num_imp_funcs() && (imp as usize) < m.base.imports.len() => 2,
+                        _ => 0,
+                    }
+                } else {
+                    0
+                };
                 Some(Op::SetFnName {
-                    id: *self.rng.pick_opt(&c)?,
+                    id,
                     name: self.st.names.next("sn"),
+                    via,
                 })
             }
             "imports_set_name" => {
